@@ -105,7 +105,12 @@ static Verdict run_c17(const Case &c)
     in_path = "in.wenc";
   }
   else if (in_k == "missing")
-    in_path = "does-not-exist.dat";
+  {
+    // names that do not exist; some contain printf conversions (a diagnostic that uses the path as a format
+    // string reads its arguments from nowhere)
+    static const char *const names[] = {"does-not-exist.dat", "does-not-exist.dat", "100%new.bin", "100%sure.bin", "%s%s%s%s%s%s%s%s", "a%5$s.bin", "%n", "50%_x.dat", "%%", "%1000000c.dat"};
+    in_path = names[(size_t)(order % (sizeof names / sizeof names[0]))];
+  }
   else if (in_k == "longname")
     in_path = std::string((size_t)c.geti("pathlen", 300) < 256 ? 300 : (size_t)c.geti("pathlen", 300), 'n');
   else if (in_k == "dir")
@@ -124,7 +129,7 @@ static Verdict run_c17(const Case &c)
   if (out_k == "ok")
     out_path = "out.bin";
   else if (out_k == "baddir")
-    out_path = "no-such-dir/out.bin";
+    out_path = (order / 16) % 3 == 0 ? "no-such-dir/100%new%s%n.out" : "no-such-dir/out.bin";
   else if (out_k == "long")
     out_path = longpath("out.bin", plong);
   std::string right = ref::b64_encode(key.data(), 16);
